@@ -6,6 +6,7 @@ import vcommon as V
 PID = "C10"
 ALL = "TOK,CTOK,RD,GW,PP,SQF,CFG,COMPILE,ASSEMBLY,PREPROCESS,CONFIGPARSE"
 MODELLED = ("TOK", "CTOK", "RD", "GW", "DEF")
+TWICE = "2xSQF,2xCFG,2xPP,2xCOMPILE,2xASSEMBLY,2xPREPROCESS,2xCONFIGPARSE"
 LOST = ("CRASH", "TIMEOUT", "OOM", "EXCEPTION", "EXIT", "LOST", "HARNESS", "HARNESS-LOST", "BADLINE", "BADROUTE")
 # parse-failure diagnostics of the routes reached from scripts (src/runtime/logging.h)
 SQF_PARSE_ERROR, CFG_PARSE_ERROR = 30015, 40013
@@ -210,6 +211,25 @@ def main(replay=None):
         dpool = [b"F", b"G1", b"_a", b"(", b")", b",", b",,", b" ", b"\t", b"x", b"y", b"\\\n", b"/*c*/", b'"s"', b'"', b"+", b"#", b"##"]
         for _ in range(4000 if thorough else 1000):
             add("define-line", b"#define " + b"".join(rng.choice(dpool) for _ in range(rng.randint(0, 9))) + rng.choice([b"", b"\n"]), routes="DEF,PP,RD,GW")
+        # ---- determinism inside one runtime: every parsing route twice on the SAME runtime (same parser objects, same path) and
+        #      once on a fresh one. Pool: the truncated / mutated / random inputs above (mostly invalid) and the valid files, spread
+        #      over lengths below and above 32, 64 and 256 bytes (a front end may treat short and long sources differently).
+        pool = [c["text"] for c in cases if c["kind"].split(":")[0] in ("prefix", "mutation", "soup", "bytes", "file", "corpus") and len(c["text"]) <= 20000]
+        for _ in range(4000 if thorough else 500):   # token soup of every length class
+            target = rng.choice([8, 24, 31, 32, 33, 48, 63, 64, 65, 120, 255, 256, 257, 600])
+            t = b""
+            while len(t) < target:
+                t += rng.choice(SOUP)
+            pool.append(t[:target] if rng.random() < 0.5 else t)
+        buckets = {"<32": [], "32-63": [], "64-255": [], ">=256": []}
+        for t in pool:
+            n = len(t)
+            buckets["<32" if n < 32 else "32-63" if n < 64 else "64-255" if n < 256 else ">=256"].append(t)
+        per_bucket = 4000 if thorough else 330
+        for bname in sorted(buckets):
+            b_ = buckets[bname]
+            for t in (b_ if len(b_) <= per_bucket else rng.sample(b_, per_bucket)):
+                add("twice:" + bname, t, routes=TWICE)
         # ---- recursion guards
         for name, t, fs, code in RECURSIVE:
             add("recursive:" + name, t, fs, "PP", expect_code=code)
@@ -296,6 +316,34 @@ def main(replay=None):
             else:
                 stats["some_results"] += 1
                 nontrivial = True
+            if route.startswith("2x"):
+                # the same input again on the same runtime (RUN2) and on a fresh one (FRESH); the harness prints them only when
+                # they differ from the first run. Each run on its own must give a result or an error-level diagnostic, and the
+                # later run must give the same result class, the same value and the same diagnostics as the first.
+                base = route[2:]
+                stats["twice_routes"] = stats.get("twice_routes", 0) + 1
+                for tag, runno in (("RUN2:", "second run on the same runtime"), ("FRESH:", "run on a fresh runtime")):
+                    j = [k for k, x in enumerate(f) if x.startswith(tag)]
+                    if not j:
+                        continue
+                    other = [f[j[0]][len(tag):]] + f[j[0] + 1:j[0] + 3]
+                    ocodes = [] if len(other) < 2 or other[1] == "-" else [tuple(int(x) for x in cd.split(":")) for cd in other[1].split(",")]
+                    if base in ("CFG", "CONFIGPARSE"):
+                        # the config host keeps what the first run defined: warnings about unknown base classes may go away.
+                        # What must stay: the result class and the error-level diagnostics
+                        same = other[0] == f[0] and sorted(cd for cd in ocodes if cd[0] <= 1) == sorted(cd for cd in codes if cd[0] <= 1)
+                    else:
+                        same = other[:3] == f[:3]
+                    silent = other[0].split(":")[0] == "NONE" and not any(lv <= 1 for lv, _ in ocodes)
+                    if not same or silent:
+                        pending.append((idx, "route %s, %s: %s|%s|%s where the first run gave %s|%s|%s - the same input does not produce the same result%s"
+                                        % (base, runno, other[0], other[1] if len(other) > 1 else "", other[2] if len(other) > 2 else "", f[0], f[1], f[2],
+                                           " (and this run gives neither a result nor an error diagnostic)" if silent else ""),
+                                        rep_of(c, il, ml, route=route, run=runno, first="|".join(f[:3]), other="|".join(other))))
+                        break
+                if len(f) > 3 and f[3].isdigit():
+                    stats["max_ms"] = max(stats["max_ms"], int(f[3]))
+                continue
             if any(x.startswith("NONDET") for x in f):
                 pending.append((idx, "route %s: the same input gave two different results in one process" % route, rep_of(c, il, ml, route=route)))
                 continue
@@ -411,7 +459,9 @@ def main(replay=None):
                        "stack and an address-space limit, twice on two fresh runtimes; oracle: no crash/timeout/OOM/exception, no result implies an "
                        "error-level diagnostic, both runs equal, recursive macros/includes give 10014/10003; tokens, reader characters, get_word/get_line "
                        "and #define splitting are compared with the extracted mechanism models; non-trivial = at least one route returned a result; "
-                       "distinct by text. Thorough tier: every prefix of every corpus file, sanitizer build. Scaling family: texts whose whole size "
+                       "determinism family (kind twice): inputs of the pools above in four length classes (<32, 32-63, 64-255, >=256 bytes), every parsing route "
+                       "twice on the SAME runtime and once on a fresh one - each run must give a result or an error diagnostic and the later runs the same "
+                       "class, value and diagnostics as the first; distinct by text. Thorough tier: every prefix of every corpus file, sanitizer build. Scaling family: texts whose whole size "
                        "is on ONE line (statements, array elements, operators, strings, config entries and classes, macro uses and calls) at 20/40/80 KB, "
                        "one route per case on the plain build; peak memory (rise of the child's ru_maxrss) must stay below 16 MB + 1 KB per input byte and, "
                        "like the time, at most triple when the input doubles; per-size time and peak memory are in outcomes.scaling_one_line.")
